@@ -583,7 +583,7 @@ _NAMES = ["a", "b", "c", "d1/e", "d1/f", "d2/g"]
 @st.composite
 def description(draw, max_cmds=7, allow_dirs=False, allow_deps=True, allow_extra_tools=True):
     nsrc = draw(st.integers(1, 4))
-    sources = [draw(st.sampled_from(["src%d", "src%d", "sd/src%d", "sd/sub/src%d"])) % i for i in range(nsrc)]
+    sources = [draw(st.sampled_from(["src%d", "src%d", "sd/src%d", "sd/sub/src%d", "sd/a/src%d", "sd/zrc%d"])) % i for i in range(nsrc)]
     tree_ok = allow_dirs and any(s.startswith("sd/") for s in sources)
     src_text = {}
     # only these sources are ever named by '#include' lines; they are never turned into produced
@@ -616,7 +616,8 @@ def description(draw, max_cmds=7, allow_dirs=False, allow_deps=True, allow_extra
             sub = draw(st.sampled_from(["", "", "gen/"]))
             outs = ["%so%d_%d" % (sub, i, j) for j in range(nout)]
             if draw(st.integers(0, 5)) == 0:
-                outs.append("<v%d>" % i)
+                # a virtual output anywhere in the list (before, between or after the files)
+                outs.insert(draw(st.integers(0, len(outs))), "<v%d>" % i)
                 virt_nodes.append("<v%d>" % i)
             c = {"name": name, "tool": "shell", "inputs": ins, "outputs": outs, "salt": "s%d" % draw(st.integers(0, 2))}
             if allow_deps and draw(st.integers(0, 2)) == 0:
